@@ -37,6 +37,9 @@ func init() {
 	register("ROUTEmulti", func(s *simrt.Sim) *Result {
 		return RunRoute(s, RouteProfile{Name: "ROUTEmulti", Multi: true, NoAckTarget: true, Liveness: true, CheckC02End: true, CheckC05: true})
 	})
+	register("C04multi", func(s *simrt.Sim) *Result {
+		return RunRoute(s, RouteProfile{Name: "C04multi", Multi: true, Faults: true})
+	})
 	register("C04bias", func(s *simrt.Sim) *Result {
 		return RunRoute(s, RouteProfile{Name: "C04bias", Faults: true, BiasFaults: true, Cleanup: true})
 	})
